@@ -33,6 +33,10 @@ CLAIMED = {
             "Seeded exploration, metamorphic oracle: the same generated request sequence is delivered on a baseline connection and on 1..3 further connections under tape-chosen TCP deliveries (cuts anywhere in head and body, coalescing, pipelining, delays from 0 to seconds, short reads, different task schedules); every delivery must produce the baseline's responses and terminate. One listed known finding (pipelining, KF-C06-2) is guarded in the main pass and re-entered deliberately in a hazard pass where any unlisted signature is still a violation.",
             "Trusts the facade tokio's read semantics (arbitrary 1..n byte returns are legal for TCP), the response parser and the C02 reference model for the baseline.",
             "metamorphic comparison of deliveries of one byte stream under injected segmentation/short-read/delay faults"),
+    "C07": ("DESIGN.md 5.C07",
+            "Seeded exploration: a catalogue of typed handlers (one or two path params of String / &str / Cow<str> / every built-in integer width, Query, JSON, URLEncoded, Multipart, Text, Option<_> of them, combinations of a param with up to three extractors) runs in the real server; 2..10 requests per keep-alive connection (param slots and payload of the previous request are the history that could leak) carry generated inputs tagged valid / invalid / grey: digit strings with garbage, signs, leading zeros, values at +-1 of every bound and far beyond, percent-encoded and non-UTF-8 segments, valid and invalid bodies, matching / mismatching / parameterised / missing Content-Type, missing payload. If the handler ran its echo must equal the reference (Rust FromStr, serde_json, independent form decoding, the multipart encoder's inputs); if not, an error status must arrive; valid canonical inputs must be accepted; an Option extractor may be None only when the item is absent. Apart from connection reuse the simulator's dimensions are inert here (stated in DESIGN.md).",
+            "Trusts Rust's FromStr and serde_json as references; non-canonical spellings and media-type case variants are grey; multipart with text fields only.",
+            "reference decoders vs typed handler echoes on live keep-alive connections"),
     "C12": ("DESIGN.md 5.C12",
             "Seeded exploration with the wall clock as a fault dimension: a JWT-guarded application (HS256/384/512, generated secrets, fang at root / on a mount / local) receives 2..10 requests on a keep-alive connection (sometimes reconnecting), each with a generated token (issued by the same configuration, model-signed with arbitrary payloads/headers, every kind of mutation and forgery of the statement) while the simulated wall clock (hook K1) is set to an instant chosen around the token's exp/nbf/iat, jumping forwards and backwards between requests; an independent token model (own base64url and HMAC construction) decides admit/refuse at that instant and the echoed payload must equal the signed one.",
             "Trusts the sha2 crate's hash functions (HMAC construction and base64url are re-implemented); non-numeric time claims are open; `bearer` in another case is checked one way only.",
